@@ -131,6 +131,47 @@ def check_case(case, stats=None):
                 if t['wf_ex_id'] in below and tid not in tasks_below_at_stop:
                     viol.append({'kind': 'task-created-below-cancelled',
                                  'detail': {'task': t['name']}})
+    # upward: a cancel reaches the executions above through their tasks
+    # ("any cancelled task => workflow CANCELLED"): an execution that
+    # finishes while one of its tasks is CANCELLED ends CANCELLED - unless an
+    # operator stopped it with another state, or its definition forces a
+    # state (`fail` / `succeed` commands)
+    if res.quiescent:
+        forced_names = set()
+        for p_ in [case['prog']] + list(case['prog'].get('subs') or []):
+            if any(e.get('to') in ('fail', 'succeed')
+                   for t in p_['tasks'].values()
+                   for cl in ('on-success', 'on-error', 'on-complete')
+                   for e in t.get(cl) or []) or any(
+                    e.get('to') in ('fail', 'succeed')
+                    for cl in ('on-success', 'on-error', 'on-complete')
+                    for e in ((p_.get('defaults') or {}).get(cl) or [])):
+                forced_names.add(p_['name'])
+        stopped_other = {r['target'][1] for r in stops
+                         if r['result'] == 'ok' and r['state'] != 'CANCELLED'}
+        prev = None
+        judged = set()
+        for step, label, snap in h.snaps:
+            if prev is not None:
+                for wid, w in snap['wf'].items():
+                    p = prev['wf'].get(wid)
+                    if wid in judged or p is None or p['state'] in FINAL \
+                            or w['state'] not in FINAL:
+                        continue
+                    judged.add(wid)
+                    if wid in stopped_other or w['name'] in forced_names:
+                        continue
+                    canc = [t['name'] for t in snap['task'].values()
+                            if t['wf_ex_id'] == wid
+                            and t['state'] == 'CANCELLED']
+                    if canc and w['state'] != 'CANCELLED':
+                        viol.append({
+                            'kind': 'execution-with-cancelled-task-not-'
+                                    'cancelled',
+                            'detail': {'wf': w['name'], 'state': w['state'],
+                                       'cancelled_tasks': canc[:4],
+                                       'step': step, 'event': label}})
+            prev = snap
     # each cancelled/failed child reported to its parent exactly once
     reports = {}
     for kind, method, kw in sim.W.rpc_log:
@@ -210,6 +251,50 @@ def gen_staggered(D, G):
     return root, outc
 
 
+def gen_cancel_mix(D, G):
+    """Three levels; the middle execution has a task running the leaf and a
+    sibling branch, both feeding a join (or the sibling simply fails): when
+    the leaf is cancelled, the middle execution finishes with a cancelled
+    task *and* an unhandled failed task at once.  The root handles errors of
+    its task (on-error), so a cancel misreported as an error would continue
+    above the cancelled execution."""
+    def T(**kw):
+        t = G.new_task()
+        t['form'] = {'action': 'noop'}
+        t.update(kw)
+        return t
+    root = {'name': 'wf', 'type': 'direct', 'input': {}, 'defaults': None,
+            'output': None, 'lang': 'yaql',
+            'order': ['run_sub', 'recover', 'after'],
+            'tasks': {'run_sub': T(workflow='sub0'), 'recover': T(),
+                      'after': T()}}
+    root['tasks']['run_sub']['on-error'] = [{'to': 'recover', 'guard': None}]
+    root['tasks']['run_sub']['on-success'] = [{'to': 'after', 'guard': None}]
+    variant = D.int(0, 2)
+    sub = {'name': 'sub0', 'type': 'direct', 'input': {}, 'defaults': None,
+           'output': None, 'lang': 'yaql', 'order': ['a', 'b', 'j'],
+           'tasks': {'a': T(workflow='sub1'), 'b': T(), 'j': T()}}
+    outc = {'run_sub': [['ok', 'a']], 'recover': [['ok', 'a']],
+            'after': [['ok', 'a']], 'a': [['ok', 'a']], 'b': [['ok', 'a']],
+            'j': [['ok', 'a']], 'leaf_t': [['never']]}
+    if variant == 0:
+        sub['tasks']['j']['join'] = 'all'
+        sub['tasks']['a']['on-success'] = [{'to': 'j', 'guard': None}]
+        sub['tasks']['b']['on-success'] = [{'to': 'j', 'guard': None}]
+    elif variant == 1:
+        outc['b'] = [['err', 'boom-b']]          # fails without on-error
+        sub['tasks']['a']['on-success'] = [{'to': 'j', 'guard': None}]
+    else:
+        sub['tasks']['j']['join'] = 'all'
+        sub['tasks']['a']['on-complete'] = [{'to': 'j', 'guard': None}]
+        sub['tasks']['b']['on-error'] = [{'to': 'j', 'guard': None}]
+    leaf = {'name': 'sub1', 'type': 'direct', 'input': {}, 'defaults': None,
+            'output': None, 'lang': 'yaql', 'order': ['leaf_t'],
+            'tasks': {'leaf_t': T(action='std.async_noop')}}
+    root['subs'] = [sub, leaf]
+    return root, outc
+
+
 def gen_backlog(D, G):
     """A definition that pauses itself with work left behind the `pause`
     command (the command backlog), next to an asynchronous task that is
@@ -264,6 +349,15 @@ def strategy(max_tasks=6):
                      'msg': D.choice([None, 'stop-msg'])},
                     {'at': D.int(31, 60), 'sel': 0, 'cmd': 'async_result',
                      'ok': D.bool(0.7)}]
+            return {'prog': prog, 'outcomes': outc, 'input': {},
+                    'sched': enginerun.gen_schedule(D, max_devs=3),
+                    'salt': D.int(0, 20), 'plan': plan}
+        if D.bool(0.1):
+            prog, outc = gen_cancel_mix(D, G)
+            # cancel the leaf (third execution by creation) or the middle one
+            plan = [{'at': D.int(8, 30), 'cmd': 'stop',
+                     'sel': D.choice([2, 2, 1]), 'state': 'CANCELLED',
+                     'msg': D.choice([None, 'stop-msg'])}]
             return {'prog': prog, 'outcomes': outc, 'input': {},
                     'sched': enginerun.gen_schedule(D, max_devs=3),
                     'salt': D.int(0, 20), 'plan': plan}
